@@ -4,6 +4,7 @@ import (
 	"rare/pkg/expressions"
 	"rare/pkg/expressions/stdlib"
 	"rare/pkg/minijson"
+	"sort"
 	"strconv"
 	"strings"
 )
@@ -57,8 +58,13 @@ func (s *SliceSpaceExpressionContext) json(named, numbered bool) string {
 	jb.OpenEx(len(s.nameTable) * 50)
 
 	if named {
-		for name, idx := range s.nameTable {
-			jb.WriteInferred(name, s.GetMatch(idx))
+		names := make([]string, 0, len(s.nameTable))
+		for name := range s.nameTable {
+			names = append(names, name)
+		}
+		sort.Strings(names) // same match, same text (map iteration order is random)
+		for _, name := range names {
+			jb.WriteInferred(name, s.GetMatch(s.nameTable[name]))
 		}
 	}
 	if numbered {
